@@ -344,6 +344,55 @@ def holdsMmas (N : Num F) (pm : PM F) (ρ hi lo : F) (pop : List (Ind F)) (pm' :
     withinBounds lo hi pm' &&
     (!isSym N pm || isSym N pm')
 
+/-! ### Which of several equally short tours is rewarded is not part of the property
+
+`min_by_key` rewards the first minimal tour; the property only says "the rewarded tour(s)". The predicate the
+correspondence check applies to the implementation therefore accepts the update for *any* of the tied best
+sampled tours (`holdsMmasAny`); `mmasUpdateWith` is the update with the rewarded tour given explicitly. -/
+
+/-- `b` is evaluated and no member of `l` has a smaller objective value (all members evaluated). -/
+def isMinOf (l : List (Ind F)) (b : Ind F) : Bool :=
+  match b.obj with
+  | none => false
+  | some o => l.all (fun y => match y.obj with
+      | some v => decide (o ≤ v)
+      | none => false)
+
+/-- `MinMaxPheromoneUpdate` when `best` is the rewarded tour (`none`: no sampled tour, nothing rewarded). -/
+def mmasUpdateWith (pm : PM F) (ρ hi lo : F) (best : Option (Ind F × F)) : Option (PM F) :=
+  let pm1 := pm.scale (1 - ρ)
+  let rewarded : Option (PM F) :=
+    match best with
+    | none => some pm1
+    | some (ind, o) => reward pm1 (1 / o) (edges ind.route)
+  match rewarded with
+  | none => none
+  | some pm2 =>
+    if lo ≤ hi then some { pm2 with inner := pm2.inner.map (clamp lo hi) }
+    else if pm2.inner.isEmpty then some pm2 else none
+
+def mmasSpecWith (pm : PM F) (ρ hi lo : F) (best : Option (Ind F × F)) (i j : Nat) : F :=
+  match best with
+  | none => clamp lo hi (pm.getD i j 0 * (1 - ρ))
+  | some (ind, o) => clamp lo hi (depositEdges (1 / o) i j (edges ind.route) (pm.getD i j 0 * (1 - ρ)))
+
+def holdsMmasWith (N : Num F) (pm : PM F) (ρ hi lo : F) (best : Option (Ind F × F)) (pm' : PM F) : Bool :=
+  pm'.dim == pm.dim && pm'.wf &&
+    allEntries pm.dim (fun i j =>
+      N.close (pm'.getD i j 0) (mmasSpecWith pm ρ hi lo best i j) &&
+        N.fin (pm'.getD i j 0) && decide ((0 : F) ≤ pm'.getD i j 0)) &&
+    withinBounds lo hi pm' &&
+    (!isSym N pm || isSym N pm')
+
+/-- The max-min clauses for some choice of the rewarded tour among the tied best sampled tours. -/
+def holdsMmasAny (N : Num F) (pm : PM F) (ρ hi lo : F) (pop : List (Ind F)) (pm' : PM F) : Bool :=
+  match pop.drop 1 with
+  | [] => holdsMmasWith N pm ρ hi lo none pm'
+  | x :: xs => (x :: xs).any (fun b => isMinOf (x :: xs) b &&
+      (match b.obj with
+       | some o => holdsMmasWith N pm ρ hi lo (some (b, o)) pm'
+       | none => false))
+
 /-! ### Validity of inputs (the region the property quantifies over) -/
 
 def pmValid (N : Num F) (pm : PM F) : Bool :=
@@ -390,7 +439,7 @@ def ctorOk (k : Kind F) : Bool :=
 def holdsUpd (N : Num F) (k : Kind F) (pm : PM F) (pop : List (Ind F)) (pm' : PM F) : Bool :=
   match k with
   | .as ρ c => holdsAs N pm ρ c pop pm'
-  | .mmas ρ hi lo => holdsMmas N pm ρ hi lo pop pm'
+  | .mmas ρ hi lo => holdsMmasAny N pm ρ hi lo pop pm'
 
 /-- The update property on the outcome of an update: a panic is a violation. -/
 def holdsUpdRun (N : Num F) (k : Kind F) (pm : PM F) (pop : List (Ind F)) : Option (PM F) → Bool
@@ -471,6 +520,37 @@ def ind? (s : Sexp) : Option (Ind Float) :=
 def pmClose (a b : PM Float) : Bool :=
   a.dim == b.dim && a.inner.length == b.inner.length &&
     (a.inner.zip b.inner).all (fun p => closeF p.1 p.2)
+
+/-- Agreement outside the region the property quantifies over: positions whose *input* trail is not
+finite (only the malformed stream has them) are not compared — there `x * (1 - ρ)` and `x - ρ * x`
+are both legitimate evaporation formulas and differ (`inf` vs `NaN`); every other position must be close. -/
+def pmCloseWhereFinite (inp a b : PM Float) : Bool :=
+  a.dim == b.dim && a.inner.length == b.inner.length && inp.inner.length == a.inner.length &&
+    ((inp.inner.zip (a.inner.zip b.inner)).all (fun p => !p.1.isFinite || closeF p.2.1 p.2.2))
+
+/-- The model's outcomes of an update for every admissible choice of the rewarded tour: the code-shaped
+`update` (first minimal tour) and, for the max-min variant, every other tied best sampled tour. -/
+def updOutcomes (k : Kind Float) (pm : PM Float) (pop : List (Ind Float)) : List (Option (PM Float)) :=
+  update k pm pop ::
+    (match k with
+     | .mmas ρ hi lo => (pop.drop 1).filterMap (fun b =>
+        if isMinOf (pop.drop 1) b then
+          (match b.obj with
+           | some o => some (mmasUpdateWith pm ρ hi lo (some (b, o)))
+           | none => none)
+        else none)
+     | _ => [])
+
+/-- Agreement of an update result with the model, whichever of the tied best sampled tours was rewarded.
+`close` is `pmClose`, or `pmCloseWhereFinite pm` outside the region the property quantifies over. -/
+def updAgree (k : Kind Float) (pm : PM Float) (pop : List (Ind Float)) (pm' : PM Float)
+    (close : PM Float → PM Float → Bool := pmClose) : Bool :=
+  (updOutcomes k pm pop).any (fun q => match q with
+    | some q => close q pm'
+    | none => false)
+
+def updAgreePanic (k : Kind Float) (pm : PM Float) (pop : List (Ind Float)) : Bool :=
+  (updOutcomes k pm pop).any Option.isNone
 
 def listClose (a b : List Float) : Bool :=
   a.length == b.length && (a.zip b).all (fun p => closeF p.1 p.2)
@@ -569,12 +649,12 @@ def handleUpd (args : List Sexp) (impl : Sexp) : Option Verdict := do
   let m := update k pm pop
   let modelS := match m with | some pm' => pmToSexp pm' | none => .atom "panic"
   match impl with
-  | .atom "panic" => pure (verdict m.isNone (if valid then "panic" else "-") modelS valid)
+  | .atom "panic" => pure (verdict (updAgreePanic k pm pop) (if valid then "panic" else "-") modelS valid)
   | .atom "err" => pure (verdict false (if valid then "err" else "-") modelS valid)
   | .atom "ctor-err" => pure (verdict false (if valid then "err" else "-") modelS valid)
   | .list [.atom "ok", pS] =>
     let pm' ← pm? "pm" pS
-    let agree := match m with | some mp => pmClose mp pm' | none => false
+    let agree := if valid then updAgree k pm pop pm' else updAgree k pm pop pm' (pmCloseWhereFinite pm)
     pure (verdict agree (if valid then updClass k pm pop pm' else "-") modelS valid)
   | _ => none
 
@@ -642,7 +722,7 @@ def judgeStep (i : StepIn) (impl : Sexp) : Option Verdict := do
     let pm' ← pm? "pm" pS
     let m := step num i.k i.pm dist i.α i.β n i.ants wits
     let agree := match m with
-      | .ok mts mobjs mpm => mts == ts && listClose mobjs objs && pmClose mpm pm'
+      | .ok mts mobjs mpm => mts == ts && listClose mobjs objs && (pmClose mpm pm' || updAgree i.k i.pm (mkPop mts mobjs) pm')
       | _ => false
     let gc := genClass i.pm n i.ants ts validG
     let oc := if objs.length == ts.length && listClose (ts.map (tourLen dist)) objs then "-" else "objective"
